@@ -41,6 +41,14 @@ func (p *c03) Run(w *lib.Worker, idx int, r *lib.Rand) lib.Case {
 	}
 	g := &gen.SpecGen{R: r, Tag: fmt.Sprintf("x%d", idx), NoRefs: idx%3 == 1}
 	doc := g.Clean()
+	// two cases out of five carry a legal enrichment (shapes which sit next to a rule without breaking it)
+	enrich := ""
+	if idx%5 == 1 || idx%5 == 3 {
+		k := gen.Enrichments[(idx/5*2+idx%5/2)%len(gen.Enrichments)]
+		if g.Enrich(k) {
+			enrich = k
+		}
+	}
 	fault := ""
 	strictOnly := false
 	if idx%4 != 0 {
@@ -57,9 +65,12 @@ func (p *c03) Run(w *lib.Worker, idx int, r *lib.Rand) lib.Case {
 	} else {
 		c.Tags = append(c.Tags, "clean")
 	}
+	if enrich != "" {
+		c.Tags = append(c.Tags, "enrichment:"+enrich)
+	}
 	for _, cfg := range specConfigs {
 		o := sut.ValidateSpec(text, cfg)
-		sample := map[string]any{"document": string(text), "fault": fault, "config": fmt.Sprintf("%+v", cfg), "outcome": o}
+		sample := map[string]any{"document": string(text), "fault": fault, "enrichment": enrich, "config": fmt.Sprintf("%+v", cfg), "outcome": o}
 		if !o.Loaded {
 			c.Inconclusive = "generated document does not load: " + o.LoadErr
 			c.Sample = sample
@@ -77,6 +88,13 @@ func (p *c03) Run(w *lib.Worker, idx int, r *lib.Rand) lib.Case {
 		if expectErr && o.Valid {
 			c.Viol = &lib.Violation{What: fmt.Sprintf("rule broken (%s) but no error reported with %+v: %s", fault, cfg, text), Detail: sample}
 			return c
+		}
+		if !expectErr && !o.Valid && enrich == "literal-X-segment" && cfg.Strict && onlyLiteralXOverlap(o.Errors, "/lx"+g.Tag) {
+			// recorded finding: the placeholder is replaced by the literal "X" before paths are compared
+			c.Known = []string{"placeholder-stripped-to-literal-X"}
+			c.KnownWhat = fmt.Sprintf("%+v: %v", cfg, o.Errors)
+			c.Sample = sample
+			continue
 		}
 		if !expectErr && !o.Valid {
 			c.Viol = &lib.Violation{What: fmt.Sprintf("every documented rule holds (fault=%q, %+v) but errors are reported: %v doc=%s", fault, cfg, o.Errors, text), Detail: sample}
@@ -103,6 +121,19 @@ func (p *c03) Run(w *lib.Worker, idx int, r *lib.Rand) lib.Case {
 		}
 	}
 	return c
+}
+
+// onlyLiteralXOverlap: every error is the overlap message between <base>/{id} and <base>/X.
+func onlyLiteralXOverlap(errs []string, base string) bool {
+	if len(errs) == 0 {
+		return false
+	}
+	for _, e := range errs {
+		if !(strings.Contains(e, "overlaps with") && strings.Contains(e, base+"/X") && strings.Contains(e, base+"/{id}")) {
+			return false
+		}
+	}
+	return true
 }
 
 func msgClass(m string) string {
